@@ -60,6 +60,10 @@ type Scenario struct {
 	// Points: scheduling points of the repository (-tags verif) -> upper bound
 	// of the pseudo-random sleep injected at each hit, in microseconds ("*" =
 	// every point not listed). PointSeed determines the amounts.
+	// Store: "" = the in-memory store (its transactions conflict when they overlap),
+	// "badger" = a real badger directory (blind writes to one key do not conflict:
+	// the transaction that commits last wins).
+	Store     string         `json:"store,omitempty"`
 	Points    map[string]int `json:"points,omitempty"`
 	PointSeed int64          `json:"point_seed,omitempty"`
 }
